@@ -106,6 +106,7 @@ package blockwise
 //
 //@ func (*BlockWise) getSentRequest(token message.Token) (m *pool.Message)
 //@   trusted
+//@   ensures m != nil ==> len(m.msg.Options) < 1000000
 //
 //@ func (*BlockWise) getValidUntil(sentRequest *pool.Message) (t time.Time)
 //@   trusted
@@ -132,7 +133,6 @@ package blockwise
 //@   requires b != nil && w != nil && r != nil && maxSzx <= 7 && b.receivingMessagesCache != nil && b.receivingMessagesCache.Map != nil && b.sendingMessagesCache != nil && b.sendingMessagesCache.Map != nil
 //@   modifies anything
 //@   opaque-calls pure
-//@   param next:
 //@   lockinv [no-nil-elements] forall k int :: {present(b.receivingMessagesCache.Map.data, k)} present(b.receivingMessagesCache.Map.data, k) ==> b.receivingMessagesCache.Map.data[k] != nil
 //@   ensures [passes-through-plain] notCalled(DecodeBlockOption) && err == nil ==> callCount(next) == 1 && callArg(next, 0, 0) == w && callArg(next, 0, 1) == r && notCalled(copyToPayloadFromOffset) && notCalled(SetMessage)
 //@   ensures [at-most-one-delivery] callCount(next) <= 1 && callCount(copyToPayloadFromOffset) <= 1
@@ -143,3 +143,4 @@ package blockwise
 //@   ensures [asks-for-next-block] called(getCachedReceivedMessage) && callRes(DecodeBlockOption, 0, 2) && err == nil ==> callCount(SetMessage) == 1 && callCount(EncodeBlockOption) == 1 && callArg(EncodeBlockOption, 0, 0) == min(callRes(DecodeBlockOption, 0, 0), maxSzx) && callArg(EncodeBlockOption, 0, 2)
 //@   ensures [failure-forgets-transfer] err != nil && called(getCachedReceivedMessage) && callRes(getCachedReceivedMessage, 0, 2) == nil ==> called(Delete)
 //@   ensures [lock-given-back] called(getCachedReceivedMessage) && callRes(getCachedReceivedMessage, 0, 2) == nil ==> callCount(opaque) == 1 && callFn(opaque, 0) == callRes(getCachedReceivedMessage, 0, 1)
+//@   param next:
